@@ -61,6 +61,12 @@ def analyse(mod, run, label):
         for (mi, ri, why) in ar:
             run.fail(Finding("S3-array-partially-written", f.name, "malloc@%s" % mi.line, "reader", why, loc=loc(ri)))
         for _ in range(max(0, ntr - len(ar))): run.ok("S3-positional-arrays-filled", {"fn": f.name})
+        # S4: a zero-filled output region that is then OR-ed into is advanced over by exactly its own size
+        for (ms, adv, same) in filled_region_advances(f):
+            run.s4 = getattr(run, "s4", 0) + 1
+            run.check(same, "S4-advance-equals-zero-filled-size", {"fn": f.name, "memset": loc(ms)},
+                      Finding("S4-advance-differs-from-filled-size", f.name, "memset@%s" % ms.line, "advance",
+                              "%s zero-fills a region of the output and then advances the cursor over it by a differently computed amount (%s): if the two ever differ, bytes the function never wrote lie inside the returned length" % (f.name, loc(adv)), loc=loc(adv)))
         # constructors
         for (t, root, stmask) in constructor_states(fu):
             o = fu.objs[root]
@@ -74,6 +80,71 @@ def analyse(mod, run, label):
     if run.samples == [] or True:
         run.samples.append({"rule": "S2-read-after-write", "verdict": "discharged", "objects_tracked": nobj, "read_obligations": nreads, "config": label})
     return nobj, nreads, eng
+
+
+def expr_key(fn, o, d=0):
+    """structural key of a pure integer expression (division / shift by the same power of two and operand order are normalised)"""
+    if o["k"] == "int": return ("c", int(o["v"]))
+    if o["k"] == "arg": return ("a", o["v"])
+    if o["k"] != "inst" or d > 12: return ("?", o.get("v"))
+    i = fn.imap[o["v"]]; K = lambda n: expr_key(fn, i.ops[n], d + 1)
+    if i.op in ("zext", "sext", "trunc", "freeze"): return K(0)
+    if i.op in ("add", "mul", "and", "or"): return (i.op,) + tuple(sorted((K(0), K(1)), key=repr))
+    if i.op == "sub": return ("sub", K(0), K(1))
+    if i.op in ("udiv", "sdiv"): return ("div", K(0), K(1))
+    if i.op in ("lshr", "ashr") and i.ops[1]["k"] == "int": return ("div", K(0), ("c", 1 << int(i.ops[1]["v"])))
+    if i.op == "shl" and i.ops[1]["k"] == "int": return ("mul",) + tuple(sorted((K(0), ("c", 1 << int(i.ops[1]["v"]))), key=repr))
+    return ("v", i.id)
+
+
+_W = {}
+def equal_exact(f, a, b):
+    """two differently written sizes that E-SIZE evaluates to the same exact polynomial (over parameters, div / mod atoms) are equal"""
+    from ..core import World
+    from ..esize import UB, Unbounded
+    w = _W.get(id(f.mod))
+    if w is None: w = _W[id(f.mod)] = World(f.mod)
+    try:
+        u = UB(w, f); u.q = True
+        ea, eb = u.exact(a), u.exact(b)
+        return ea is not None and eb is not None and ea == eb
+    except Unbounded:
+        return False
+
+
+def filled_region_advances(f):
+    """[(memset call, advancing instruction, same size?)] for memset(p, 0, n) on memory reached from a non-const byte pointer parameter
+    followed by a cursor step  p + m  (a GEP on the same pointer value that feeds a phi, a return or another cursor step)"""
+    out = []
+    def base_param(o, seen=()):
+        if o["k"] == "arg": return o["v"]
+        if o["k"] != "inst" or o["v"] in seen: return None
+        i = f.imap[o["v"]]
+        if i.op in ("bitcast", "getelementptr"): return base_param(i.ops[0], seen + (o["v"],))
+        if i.op == "phi":
+            rs = {base_param(inc["v"], seen + (o["v"],)) for inc in i["incoming"]} - {None}
+            return rs.pop() if len(rs) == 1 else None
+        return None
+    users = {}
+    for i in f.insts():
+        ops = list(i.ops) + ([inc["v"] for inc in i["incoming"]] if i.op == "phi" else [])
+        for o in ops:
+            if o["k"] == "inst": users.setdefault(o["v"], []).append(i)
+    for c in f.calls():
+        if not (c.get("callee") or "").startswith("llvm.memset"): continue
+        if not (c.ops[1]["k"] == "int" and int(c.ops[1]["v"]) == 0): continue
+        p = c.ops[0]; k = base_param(p)
+        if k is None or f.params[k]["t"] != "i8*" or "const" in f.params[k].get("di", ""): continue
+        if p["k"] != "inst": continue          # zero-filling from the very start of the buffer (e.g. a writer's init): no cursor involved
+        nk = expr_key(f, c.ops[2])
+        for u in users.get(p["v"], []):
+            if u.op == "getelementptr" and u.ops[0]["k"] == "inst" and u.ops[0]["v"] == p["v"] and len(u["var"]) == 1 and u["var"][0]["stride"] == 1 and u["coff"] == 0:
+                if not any(x.op in ("phi", "ret", "ptrtoint") or (x.op == "getelementptr" and x.ops[0]["k"] == "inst" and x.ops[0]["v"] == u.id) for x in users.get(u.id, [])): continue
+                if f.dominates(c.block.id, u.block.id) and u.block.id != c.block.id or (u.block.id == c.block.id and c.block.insts.index(u) > c.block.insts.index(c)):
+                    same = expr_key(f, u["var"][0]["idx"]) == nk
+                    if not same: same = equal_exact(f, c.ops[2], u["var"][0]["idx"])
+                    out.append((c, u, same))
+    return out
 
 
 def controls(run):
@@ -98,6 +169,7 @@ def run(tier):
         per[cfg] = {"objects_tracked": nobj, "read_obligations": nreads, "summary_rounds": eng.rounds}
         run.floor("tracked stack/heap objects (%s)" % cfg, nobj, 85)
         run.floor("read obligations (%s)" % cfg, nreads, 150)
+        run.floor("zero-filled output regions with a cursor step (%s)" % cfg, getattr(run, "s4", 0), 4); run.s4 = 0
     controls(run)
     run.coverage.update({"configurations": per,
                          "not_decided": "element-wise initialisation of arrays (heap or stack, variable index) is outside a must-analysis; 'fresh process' follows from S1 and S2"})
